@@ -416,6 +416,7 @@ func augmentProps(eng *Engine, path string) {
 		return
 	}
 	anchors := map[string][]string{}
+	pkgProps := map[string][]string{}
 	for _, line := range strings.Split(string(b), "\n") {
 		var p struct {
 			ID      string `json:"id"`
@@ -429,6 +430,13 @@ func augmentProps(eng *Engine, path string) {
 		for _, f := range p.Anchors.Files {
 			f = strings.Fields(f)[0]
 			anchors[f] = append(anchors[f], p.ID)
+			// ... and for every property anchored in the same package: the helpers and adaptors a
+			// mechanism relies on (stat conversion, mode predicates, device numbers, comparators)
+			// live next to it, and a change in one of them breaks the property just as well
+			d := filepath.Dir(f)
+			if !hasProp(pkgProps[d], p.ID) {
+				pkgProps[d] = append(pkgProps[d], p.ID)
+			}
 		}
 	}
 	for _, key := range eng.cs.Order {
@@ -444,7 +452,7 @@ func augmentProps(eng *Engine, path string) {
 		if i := strings.LastIndex(pos, ":"); i >= 0 {
 			pos = pos[:i]
 		}
-		for _, id := range anchors[pos] {
+		for _, id := range append(append([]string(nil), anchors[pos]...), pkgProps[filepath.Dir(pos)]...) {
 			if !hasProp(fc.Props, id) {
 				fc.Props = append(fc.Props, id)
 			}
